@@ -433,7 +433,35 @@ def do_values(case):
         G.VoseSampler = old
 
 
-KINDS = {"prepare": do_prepare, "table": do_table, "draw": do_draw, "det": do_det, "u": do_u, "stat": do_stat,
+def do_det_perm(case):
+    """Same grammar as a det case, but the probability table of every non-terminal is
+    written in the reverse of the rule order (as ProbDetGrammar.__add__ or a hand-written
+    table can do).  The weight vector handed to each alias sampler must still be the
+    weights of the programs of its sampling_map, position by position."""
+    import synth.syntax.grammars.tagged_det_grammar as M
+    from synth.syntax.grammars.tagged_det_grammar import ProbDetGrammar
+    fuel, table, weights, start, scripts = case["data"]
+    pg0 = det_from_wire(table, weights, start)
+    probs = {S: dict(reversed(list(d.items()))) for S, d in pg0.tags.items()}
+    pg = ProbDetGrammar(pg0.grammar, probs)
+    old = M.VoseSampler
+    M.VoseSampler = Scripted
+    try:
+        Scripted.log = []
+        Scripted.script = iter(())
+        pg.init_sampling(case.get("seed", 0))
+        logged = list(Scripted.log)
+    finally:
+        M.VoseSampler = old
+    aligned = len(logged) == len(pg.tags)
+    for S, s in zip(pg.tags, logged):
+        want = [pg.tags[S][P] for P in pg.sampling_map[S]]
+        if [float(x) for x in s.weights] != [float(x) for x in want]:
+            aligned = False
+    return {"aligned": aligned}
+
+
+KINDS = {"det_perm": do_det_perm, "prepare": do_prepare, "table": do_table, "draw": do_draw, "det": do_det, "u": do_u, "stat": do_stat,
          "gstat": do_gstat, "ugstat": do_ugstat, "seed": do_seed, "values": do_values}
 
 
